@@ -573,7 +573,7 @@ def maximal_munch_checks(ctx):
         t = gm.terminals.get(name)
         ctx.need(t is not None, f"terminal {name} missing")
         match[name] = re.compile(re.escape(t["value"]) if t["kind"] == "str" else t["value"])
-    probes = ["a++ - 300", "a-- + 5", "a+++b", "a---b", "i++;", "x = y-- - z;", "a - -b", "a+ +b", "a+-b", "a - b", "-a + b", "a+b"]
+    probes = ["a++ - 300", "a-- + 5", "a+++b", "a---b", "i++;", "x = y-- - z;", "a - -b", "a+ +b", "a+-b", "a - b", "-a + b", "a+b", "a++ + b", "a-- -b", "++a", "--a"]
     for name, rx_ in sorted(match.items()):
         bad = []
         singles = 0
@@ -581,7 +581,15 @@ def maximal_munch_checks(ctx):
             for pos, ch in enumerate(text):
                 if ch not in "+-":
                     continue
-                doubled = text[pos:pos + 2] in ("++", "--") or (pos > 0 and text[pos - 1:pos + 1] in ("++", "--"))
+                # C's longest-token rule on a run of equal signs: pairs from the left are ++ / --, an odd one out at the end is a sign
+                start = pos
+                while start > 0 and text[start - 1] == ch:
+                    start -= 1
+                end = pos
+                while end + 1 < len(text) and text[end + 1] == ch:
+                    end += 1
+                run = end - start + 1
+                doubled = not (run % 2 == 1 and pos == end)
                 m = rx_.match(text, pos)
                 hit = bool(m) and m.group(0) == ch
                 wants = (ch == "+" and name in ("ADD_OP", "UNARY_OP")) or (ch == "-" and name in ("SUB_OP", "UNARY_OP"))
